@@ -6,10 +6,9 @@ module-level names).  A later edit that merely *re-shapes* code relative to that
 extracting a private helper, naming a temporary, hoisting a literal into a module constant,
 renaming a local or a parameter of a private function - is undone here before the rules look at
 the function, so that a behaviour-preserving refactoring presents the reference shape again.
-Every transformation is semantics-preserving by construction (inlining with capture-free
-renaming, copy propagation of single-assigned pure expressions, constant substitution) except the
-positional rename-back of locals, which is heuristic: functions touched by it are flagged, and the
-report layer downgrades a VIOLATED verdict inside a flagged function to UNRECOGNISED.
+Every transformation is semantics-preserving by construction: inlining with capture-free renaming,
+copy propagation of single-assigned pure expressions whose inputs are stable between definition and
+use, constant substitution, and alpha-renaming of locals to names that do not occur in the function.
 Anything the normaliser is not sure about is left alone.
 """
 import ast
@@ -101,26 +100,38 @@ def free_names(e):
     return {n.id for n in ast.walk(e) if isinstance(n, ast.Name)}
 
 
-def bound_names(fn):
-    """Ordered list of (name, kind) bound in fn (not descending into nested defs): param / assign / loop / with / except / walrus."""
+def bound_names(fn, defs=None):
+    """Ordered list of (name, kind) bound in fn (not descending into nested defs): param / assign / loop / with / except / walrus.
+    If `defs` is a dict it receives name -> text describing the first binding (what the name is defined as)."""
     out, seen = [], set()
+    cur = [None]
 
     def add(n, k):
         if n not in seen:
             seen.add(n)
             out.append((n, k))
+            if defs is not None and cur[0] is not None:
+                defs[n] = cur[0]
     a = fn.args
     for p in a.posonlyargs + a.args + ([a.vararg] if a.vararg else []) + a.kwonlyargs + ([a.kwarg] if a.kwarg else []):
         add(p.arg, "param")
 
-    def targets(t, k):
+    def targets(t, k, src=None, pos=""):
         if isinstance(t, ast.Name):
+            cur[0] = None if src is None else f"{k}{pos}:{src}"
             add(t.id, k)
+            cur[0] = None
         elif isinstance(t, (ast.Tuple, ast.List)):
-            for e in t.elts:
-                targets(e, k)
+            for i, e in enumerate(t.elts):
+                targets(e, k, src, f"{pos}[{i}]")
         elif isinstance(t, ast.Starred):
-            targets(t.value, k)
+            targets(t.value, k, src, pos + "*")
+
+    def txt(e):
+        try:
+            return " ".join(ast.unparse(e).split())
+        except Exception:
+            return "?"
 
     def walk(node):
         for ch in ast.iter_child_nodes(node):
@@ -130,19 +141,21 @@ def bound_names(fn):
                 continue
             if isinstance(ch, ast.Assign):
                 for t in ch.targets:
-                    targets(t, "assign")
+                    targets(t, "assign", txt(ch.value))
             elif isinstance(ch, (ast.AugAssign, ast.AnnAssign)):
-                targets(ch.target, "assign")
+                targets(ch.target, "assign", txt(ch.value) if ch.value is not None else "")
             elif isinstance(ch, ast.For):
-                targets(ch.target, "loop")
+                targets(ch.target, "loop", txt(ch.iter))
             elif isinstance(ch, ast.With):
                 for it in ch.items:
                     if it.optional_vars is not None:
-                        targets(it.optional_vars, "with")
+                        targets(it.optional_vars, "with", txt(it.context_expr))
             elif isinstance(ch, ast.ExceptHandler) and ch.name:
+                cur[0] = "except:" + (txt(ch.type) if ch.type is not None else "")
                 add(ch.name, "except")
+                cur[0] = None
             elif isinstance(ch, ast.NamedExpr):
-                targets(ch.target, "walrus")
+                targets(ch.target, "walrus", txt(ch.value))
             elif isinstance(ch, ast.comprehension):
                 continue
             if not isinstance(ch, (ast.ListComp, ast.SetComp, ast.DictComp, ast.GeneratorExp)):
@@ -165,8 +178,10 @@ def inventory_of_tree(tree):
         for st in node.body:
             if isinstance(st, (ast.FunctionDef, ast.AsyncFunctionDef)):
                 q = prefix + st.name
-                b = bound_names(st)
-                inv["functions"][q] = {"params": [n for n, k in b if k == "param"], "locals": [[n, k] for n, k in b if k != "param"]}
+                d = {}
+                b = bound_names(st, d)
+                inv["functions"][q] = {"params": [n for n, k in b if k == "param"], "locals": [[n, k] for n, k in b if k != "param"],
+                                       "defs": {n: d[n] for n, k in b if k != "param" and n in d}}
                 rec(st, q + ".")
             elif isinstance(st, ast.ClassDef):
                 inv["functions"].setdefault("class:" + prefix + st.name, {"params": [], "locals": [[s.targets[0].id, "attr"] for s in st.body if isinstance(s, ast.Assign) and isinstance(s.targets[0], ast.Name)]})
@@ -304,6 +319,7 @@ class ModuleNormaliser:
         self.log = []
         self.flagged = set()      # qualnames normalised heuristically (rename-back)
         self.reshaped = set()
+        self.renamed = set()
         self.counter = itertools.count()
         self.defs = {}            # qualname -> (FunctionDef, owner node, class name or None)
         self._collect(tree, "", None)
@@ -505,6 +521,29 @@ class ModuleNormaliser:
                     rename[p] = tmp
             else:
                 subst[p] = v
+        if mode == "assign":
+            # `a, b = helper(...)` where the helper ends in `return x, y` (its own locals): let the helper's locals
+            # be the caller's targets directly - the caller's old values are dead (overwritten by this statement)
+            tg0 = st.targets[0]
+            tnames = [e.id for e in tg0.elts] if isinstance(tg0, ast.Tuple) and all(isinstance(e, ast.Name) for e in tg0.elts) else \
+                ([tg0.id] if isinstance(tg0, ast.Name) else None)
+            rets = [x for s_ in body for x in ast.walk(s_) if isinstance(x, ast.Return)]
+            if tnames and rets:
+                shapes = set()
+                for r_ in rets:
+                    v = r_.value
+                    names = [e.id for e in v.elts] if isinstance(v, ast.Tuple) and all(isinstance(e, ast.Name) for e in v.elts) else \
+                        ([v.id] if isinstance(v, ast.Name) else None)
+                    shapes.add(tuple(names) if names else None)
+                if len(shapes) == 1 and None not in shapes:
+                    rn = list(shapes.pop())
+                    helper_locals = {n for n, k_ in bound_names(helper) if k_ != "param"}
+                    argnames = {n.id for a_ in list(call.args) + [k_.value for k_ in call.keywords] for n in ast.walk(a_) if isinstance(n, ast.Name)}
+                    used_in_helper = {n.id for n in ast.walk(helper) if isinstance(n, ast.Name)}
+                    if len(rn) == len(tnames) and len(set(rn)) == len(rn) and set(rn) <= helper_locals and not (set(tnames) & argnames) \
+                            and not ((set(tnames) - set(rn)) & used_in_helper) and not any(rename.get(x_, x_) in tnames for x_ in helper_locals - set(rn)):
+                        for a_, b_ in zip(rn, tnames):
+                            rename[a_] = b_
         new = _stmts_subst(body, subst, rename)
         if mode == "stmt":
             if any(isinstance(x, ast.Return) and x.value is not None and not (isinstance(x.value, ast.Constant) and x.value.value is None) for s in new for x in ast.walk(s)):
@@ -519,6 +558,8 @@ class ModuleNormaliser:
                 if e is None:
                     e = ast.Constant(value=None)
                 if isinstance(tg, ast.Name) and isinstance(e, ast.Name) and e.id == tg.id:
+                    return []
+                if isinstance(tg, ast.Tuple) and isinstance(e, ast.Tuple) and ast.dump(_loadify(tg)) == ast.dump(_loadify(e)):
                     return []
                 return [ast.Assign(targets=[clone(tg)], value=e)]
             new = _replace_returns(new, mk)
@@ -757,8 +798,10 @@ class ModuleNormaliser:
                     inside = {id(x) for s in block for x in ast.walk(s)}
                     if any(id(u) not in inside for u in uses):
                         continue
-                # a loop between definition and use would re-evaluate: forbid when the definition is inside a loop
-                # but uses are fine since single-assigned and pure with stable free variables
+                if not uses:
+                    continue
+                if not self._stable_between(fn, st, v, uses):
+                    continue
                 self._substitute_local(fn, v, st.value)
                 block.remove(st)
                 if not block:
@@ -768,6 +811,69 @@ class ModuleNormaliser:
                 break
             if not progress:
                 break
+
+    @staticmethod
+    def _stable_between(fn, st, v, uses):
+        """Substituting `v = E` into its uses is value-preserving when (1) the object is not mutated or identity-
+        tested through v unless E merely aliases an existing object, and (2) nothing between the definition and the
+        last use can change what E reads: no store to an attribute/subscript E reads, and no impure method call on
+        an object that E reads *through* (assumption, stated in DESIGN.md: a method changes its receiver's subtree
+        only)."""
+        E = st.value
+        alias = isinstance(E, (ast.Name, ast.Attribute, ast.Subscript, ast.Constant)) and is_pure(E)
+        parent = {}
+        for n in ast.walk(fn):
+            for ch in ast.iter_child_nodes(n):
+                parent[id(ch)] = n
+        if not alias:
+            for u in uses:
+                p_ = parent.get(id(u))
+                if isinstance(p_, (ast.Attribute, ast.Subscript)) and p_.value is u:
+                    if isinstance(p_.ctx, (ast.Store, ast.Del)):
+                        return False
+                    pp = parent.get(id(p_))
+                    if isinstance(p_, ast.Attribute) and isinstance(pp, ast.Call) and pp.func is p_ and p_.attr not in PURE_METHODS:
+                        return False
+                if isinstance(p_, ast.Compare) and any(isinstance(o, (ast.Is, ast.IsNot)) for o in p_.ops) and not isinstance(E, ast.Constant):
+                    return False
+                if isinstance(p_, ast.AugAssign) and p_.target is u:
+                    return False
+        last = max(u._ord for u in uses)
+        attrs = {n.attr for n in ast.walk(E) if isinstance(n, ast.Attribute)}
+        chains = set()
+        for n in ast.walk(E):
+            d = None
+            if isinstance(n, ast.Attribute):
+                parts, x = [], n
+                while isinstance(x, (ast.Attribute, ast.Subscript)):
+                    if isinstance(x, ast.Attribute):
+                        parts.append(x.attr)
+                    x = x.value
+                if isinstance(x, ast.Name):
+                    d = ".".join([x.id] + list(reversed(parts)))
+            if d:
+                chains.add(d)
+        subs = {" ".join(ast.unparse(n.value).split()) for n in ast.walk(E) if isinstance(n, ast.Subscript)}
+        for n in ast.walk(fn):
+            o = getattr(n, "_ord", None)
+            if o is None or o <= st._ord or o > last:
+                continue
+            if isinstance(n, ast.Attribute) and isinstance(n.ctx, (ast.Store, ast.Del)) and n.attr in attrs:
+                return False
+            if isinstance(n, ast.Subscript) and isinstance(n.ctx, (ast.Store, ast.Del)) and " ".join(ast.unparse(n.value).split()) in subs:
+                return False
+            if isinstance(n, ast.Call) and isinstance(n.func, ast.Attribute) and n.func.attr not in PURE_METHODS:
+                r = n.func.value
+                parts, x = [], r
+                while isinstance(x, (ast.Attribute, ast.Subscript)):
+                    if isinstance(x, ast.Attribute):
+                        parts.append(x.attr)
+                    x = x.value
+                if isinstance(x, ast.Name):
+                    recv = ".".join([x.id] + list(reversed(parts)))
+                    if any(c == recv or c.startswith(recv + ".") for c in chains):
+                        return False
+        return True
 
     def _split_parallel(self, fn, new_locals):
         def process(stmts):
@@ -829,14 +935,18 @@ class ModuleNormaliser:
         for i, s in enumerate(fn.body):
             fn.body[i] = T().visit(s)
 
-    # ---- renames (heuristic, flagged)
+    # ---- renames
     def _rename_back(self, q, fn):
+        """Alpha-renaming of locals (and positionally of parameters) back to the reference names.  Renaming a local
+        to a name that does not occur in the function is semantics-preserving whatever the pairing; the pairing
+        (same kind of binding and the same defining expression modulo the renaming itself) only decides how well the
+        rules recognise the result."""
         inv = self.inv["functions"][q]
-        cur = bound_names(fn)
+        cdefs = {}
+        cur = bound_names(fn, cdefs)
         cur_params = [n for n, k in cur if k == "param"]
         ref_params = inv["params"]
         rename = {}
-        private = fn.name.startswith("_") and not fn.name.startswith("__") or "." in q and q.split(".")[-1].startswith("_")
         if cur_params != ref_params and len(cur_params) == len(ref_params):
             for c, r in zip(cur_params, ref_params):
                 if c != r:
@@ -847,25 +957,52 @@ class ModuleNormaliser:
         cur_names = [n for n, _ in cur_locals]
         removed = [(n, k) for n, k in ref_locals if n not in cur_names]
         added = [(n, k) for n, k in cur_locals if n not in ref_names]
-        if removed and len(removed) == len(added) and all(a[1] == r[1] for a, r in zip(added, removed)):
-            for (a, _), (r, _) in zip(added, removed):
-                rename[a] = r
-        elif added or removed:
-            if added:
-                self.reshaped.add(q)    # shape differs in a way that was not normalised (information only)
-        if rename:
-            taken = set(cur_names) | set(cur_params)
-            if any(r in taken and r not in rename for r in rename.values()):
-                self.flagged.add(q)
-                return
-            Sub = Subst({}, rename)
-            Sub.visit_FunctionDef = lambda n: n
-            for a in fn.args.args:
-                if a.arg in rename:
-                    a.arg = rename[a.arg]
-            fn.body = [Subst({}, rename).visit(s) for s in fn.body]
-            self.flagged.add(q)
-            self.log.append(f"{q}: locals/parameters renamed back positionally {rename} (heuristic: verdicts in this function are downgraded)")
+        rdefs = inv.get("defs", {})
+        import re as _re
+
+        def apply(text, mp):
+            return _re.sub(r"[A-Za-z_][A-Za-z_0-9]*", lambda m: mp.get(m.group(0), m.group(0)), text)
+        progress = True
+        while progress and added and removed:
+            progress = False
+            for a, ka in list(added):
+                da = cdefs.get(a)
+                if da is None:
+                    continue
+                cands = [(r, kr) for r, kr in removed if kr == ka and rdefs.get(r) is not None and apply(da, rename) == rdefs[r]]
+                if len(cands) == 1:
+                    rename[a] = cands[0][0]
+                    added.remove((a, ka))
+                    removed.remove(cands[0])
+                    progress = True
+        if added:
+            self.reshaped.add(q)
+        if not rename:
+            return
+        allnames = {n.id for n in ast.walk(fn) if isinstance(n, ast.Name)} | {a.arg for a in ast.walk(fn) if isinstance(a, ast.arg)}
+        if any(r in allnames and r not in rename for r in rename.values()) or len(set(rename.values())) != len(rename):
+            return        # the reference name is in use for something else: leave the function alone
+        for a in fn.args.posonlyargs + fn.args.args + fn.args.kwonlyargs + ([fn.args.vararg] if fn.args.vararg else []) + ([fn.args.kwarg] if fn.args.kwarg else []):
+            if a.arg in rename:
+                a.arg = rename[a.arg]
+
+        class R(ast.NodeTransformer):
+            def visit_Name(self, n):
+                if n.id in rename:
+                    return ast.copy_location(ast.Name(id=rename[n.id], ctx=n.ctx), n)
+                return n
+
+            def visit_arg(self, n):
+                return n
+
+            def visit_ExceptHandler(self, n):
+                if n.name in rename:
+                    n.name = rename[n.name]
+                self.generic_visit(n)
+                return n
+        fn.body = [R().visit(s_) for s_ in fn.body]
+        self.renamed.add(q)
+        self.log.append(f"{q}: locals/parameters alpha-renamed to the reference names {rename}")
 
 
 def normalise_module(tree, inv):
